@@ -62,13 +62,126 @@ def _value_types(tree: ast.Module) -> dict[str, str]:
     _fail('class ValueType not found')
 
 
-def _func(tree: ast.Module, cls: str, name: str) -> ast.FunctionDef:
+def _raw_func(tree: ast.Module, cls: str, name: str) -> ast.FunctionDef:
     for n in tree.body:
         if isinstance(n, ast.ClassDef) and n.name == cls:
             for f in n.body:
                 if isinstance(f, ast.FunctionDef) and f.name == name:
                     return f
     _fail(f'{cls}.{name} not found')
+
+
+def _func(tree: ast.Module, cls: str, name: str) -> ast.FunctionDef:
+    """The method, normalised: calls of one-expression helper functions (nested in the method or at module level) are
+    replaced by the helper's expression, so that extracting or inlining such a helper does not change what is read."""
+    return _inline_helpers(_raw_func(tree, cls, name), tree)
+
+
+# ------------------------------------------------------------------------------------------------ normalisation
+def _strip_doc(body: list[ast.stmt]) -> list[ast.stmt]:
+    b = list(body)
+    if b and isinstance(b[0], ast.Expr) and isinstance(b[0].value, ast.Constant) and isinstance(b[0].value.value, str):
+        b = b[1:]
+    return b
+
+
+def _simple_helper(f: ast.FunctionDef):
+    """(parameter names, expression) of `def f(a, b): [doc] return EXPR` / `def f(a, b): [doc] EXPR`, else None."""
+    a = f.args
+    if a.vararg or a.kwarg or a.kwonlyargs or a.posonlyargs or a.defaults or f.decorator_list:
+        return None
+    b = _strip_doc(f.body)
+    if len(b) != 1:
+        return None
+    if isinstance(b[0], ast.Return) and b[0].value is not None:
+        expr = b[0].value
+    elif isinstance(b[0], ast.Expr):
+        expr = b[0].value
+    else:
+        return None
+    params = [x.arg for x in a.args]
+    for n in ast.walk(expr):      # no rebinding of a parameter inside the expression (lambda, comprehension, walrus)
+        if isinstance(n, ast.Name) and n.id in params and not isinstance(n.ctx, ast.Load):
+            return None
+        if isinstance(n, ast.arg) and n.arg in params:
+            return None
+        if isinstance(n, (ast.Yield, ast.YieldFrom, ast.Await)):
+            return None
+    return params, expr
+
+
+def _pure_arg(n: ast.AST) -> bool:
+    """Expressions that can be duplicated or dropped without changing behaviour: names, attribute / constant-subscript
+    chains of them, constants."""
+    if isinstance(n, (ast.Name, ast.Constant)):
+        return True
+    if isinstance(n, ast.Attribute):
+        return _pure_arg(n.value)
+    if isinstance(n, ast.Subscript):
+        return _pure_arg(n.value) and _pure_arg(n.slice)
+    return False
+
+
+def _inline_helpers(fn: ast.FunctionDef, tree: ast.Module) -> ast.FunctionDef:
+    import copy
+    fn = copy.deepcopy(fn)
+    helpers: dict = {}
+    local_defs = [st for st in fn.body if isinstance(st, ast.FunctionDef)]
+    for st in local_defs:
+        h = _simple_helper(st)
+        if h is not None:
+            helpers[st.name] = h
+    rebound = {n.id for n in ast.walk(fn) if isinstance(n, ast.Name) and not isinstance(n.ctx, ast.Load)} | \
+              {a.arg for a in ast.walk(fn) if isinstance(a, ast.arg)}
+    for n in tree.body:
+        if isinstance(n, ast.FunctionDef) and n.name not in helpers and n.name not in rebound \
+                and n.name not in {d.name for d in local_defs}:
+            h = _simple_helper(n)
+            if h is not None:
+                helpers[n.name] = h
+    helpers = {k: v for k, v in helpers.items() if k not in rebound}
+    if not helpers:
+        return fn
+
+    class Inline(ast.NodeTransformer):
+        def visit_FunctionDef(self, node):
+            if node is not fn and node.name in helpers:
+                return node                      # do not rewrite inside a helper itself
+            self.generic_visit(node)
+            return node
+
+        def visit_Call(self, c):
+            self.generic_visit(c)
+            if not (isinstance(c.func, ast.Name) and c.func.id in helpers):
+                return c
+            params, expr = helpers[c.func.id]
+            if any(isinstance(a, ast.Starred) for a in c.args) or any(k.arg is None for k in c.keywords):
+                return c
+            bind = dict(zip(params, c.args))
+            for k in c.keywords:
+                if k.arg in bind or k.arg not in params:
+                    return c
+                bind[k.arg] = k.value
+            if len(c.args) > len(params) or set(bind) != set(params):
+                return c
+            uses = {p_: sum(1 for n in ast.walk(expr) if isinstance(n, ast.Name) and n.id == p_) for p_ in params}
+            if not all(_pure_arg(bind[p_]) or uses[p_] == 1 for p_ in params):
+                return c
+
+            class Subst(ast.NodeTransformer):
+                def visit_Name(self, n):
+                    if n.id in bind and isinstance(n.ctx, ast.Load):
+                        return copy.deepcopy(bind[n.id])
+                    return n
+            new = Subst().visit(copy.deepcopy(expr))
+            return ast.copy_location(new, c)
+    fn = Inline().visit(fn)
+    # a nested helper nobody refers to any more disappears
+    still = {n.id for st in fn.body if not (isinstance(st, ast.FunctionDef) and st.name in helpers)
+             for n in ast.walk(st) if isinstance(n, ast.Name)}
+    fn.body = [st for st in fn.body if not (isinstance(st, ast.FunctionDef) and st.name in helpers and st.name not in still)]
+    ast.fix_missing_locations(fn)
+    return fn
 
 
 def _enc_arg(node: ast.AST | None, where) -> str:
@@ -246,6 +359,282 @@ def _export_binary(fn: ast.FunctionDef) -> dict:
     out['stub_line'] = stub[0].lineno
     return out
 
+
+
+# ------------------------------------------------------------------------------------------------ attribute count / member loops
+class _Lin:
+    """count = len * len(elem) + has * (KEY in elem._members) + const + kept * #(members not skipped by FILTER)."""
+    def __init__(self, ln=0, has=0, const=0, kept=0, has_key=None, kept_filter=None):
+        self.ln, self.has, self.const, self.kept, self.has_key, self.kept_filter = ln, has, const, kept, has_key, kept_filter
+
+    def _merge_keys(self, o, where):
+        hk = self.has_key if self.has_key is not None else o.has_key
+        if self.has_key is not None and o.has_key is not None and self.has_key != o.has_key:
+            _fail('attribute count: membership tests on two different keys', where)
+        kf = self.kept_filter if self.kept_filter is not None else o.kept_filter
+        if self.kept_filter is not None and o.kept_filter is not None and self.kept_filter != o.kept_filter:
+            _fail('attribute count: two different counting comprehensions', where)
+        return hk, kf
+
+    def add(self, o, sign, where):
+        hk, kf = self._merge_keys(o, where)
+        return _Lin(self.ln + sign * o.ln, self.has + sign * o.has, self.const + sign * o.const, self.kept + sign * o.kept, hk, kf)
+
+    def scale(self, k):
+        return _Lin(self.ln * k, self.has * k, self.const * k, self.kept * k, self.has_key, self.kept_filter)
+
+    def is_const(self):
+        return self.ln == 0 and self.has == 0 and self.kept == 0
+
+
+def _members_expr(node: ast.AST, elem: str) -> bool:
+    """Expressions whose keys / length are those of `elem._members`: elem, elem._members, elem.keys(), elem._members.keys()."""
+    src = ast.unparse(node)
+    return src in (elem, f'{elem}._members', f'{elem}.keys()', f'{elem}._members.keys()')
+
+
+def _has_test(node: ast.AST, elem: str, where):
+    """`'k' in elem._members` (or `in elem`: Mapping.__contains__ looks the casefolded name up, the same for a lower-case
+    literal) -> (key, negated) or None."""
+    if isinstance(node, ast.UnaryOp) and isinstance(node.op, ast.Not):
+        r = _has_test(node.operand, elem, where)
+        return None if r is None else (r[0], not r[1])
+    if isinstance(node, ast.Compare) and len(node.ops) == 1 and isinstance(node.ops[0], (ast.In, ast.NotIn)) \
+            and isinstance(node.left, ast.Constant) and isinstance(node.left.value, str) and _members_expr(node.comparators[0], elem):
+        key = node.left.value
+        if ast.unparse(node.comparators[0]) in (elem, f'{elem}.keys()') and key.casefold() != key:
+            _fail(f'attribute count: `{ast.unparse(node)}` looks a casefolded name up', where)
+        return key, isinstance(node.ops[0], ast.NotIn)
+    return None
+
+
+def _key_filter(test: ast.AST, key_var, attr_var, where, want_equal: bool = True):
+    """A skip test of a loop over the members: `K == 'c'` -> ('FKeyIs', c), `A.name == 'c'` -> ('FRealNameIs', c).
+    want_equal=False reads the keep test `K != 'c'`."""
+    if isinstance(test, ast.Compare) and len(test.ops) == 1 and isinstance(test.ops[0], (ast.Eq, ast.NotEq)):
+        l, r = test.left, test.comparators[0]
+        if isinstance(l, ast.Constant):
+            l, r = r, l
+        if isinstance(r, ast.Constant) and isinstance(r.value, str) and isinstance(test.ops[0], ast.Eq) == want_equal:
+            ls = ast.unparse(l)
+            if key_var is not None and ls == key_var:
+                return ('FKeyIs', r.value)
+            if attr_var is not None and ls == f'{attr_var}.name':
+                return ('FRealNameIs', r.value)
+    _fail(f'unrecognised test on a member `{ast.unparse(test)}`', where)
+
+
+def _count_comprehension(node: ast.AST, elem: str, where):
+    """sum(1 for k in elem._members if k != 'c') / len([k for k in elem._members if k != 'c']) /
+    sum(k != 'c' for k in elem._members) -> the filter of the members that are *not* counted, else None."""
+    if not (isinstance(node, ast.Call) and isinstance(node.func, ast.Name) and node.func.id in ('sum', 'len') and len(node.args) == 1
+            and not node.keywords and isinstance(node.args[0], (ast.GeneratorExp, ast.ListComp))):
+        return None
+    comp = node.args[0]
+    if len(comp.generators) != 1 or comp.generators[0].is_async:
+        _fail(f'attribute count: unrecognised comprehension `{ast.unparse(node)}`', where)
+    g = comp.generators[0]
+    key_var = attr_var = None
+    it = ast.unparse(g.iter)
+    if _members_expr(g.iter, elem) and isinstance(g.target, ast.Name):
+        key_var = g.target.id
+    elif it in (f'{elem}._members.items()', f'{elem}.items()') and isinstance(g.target, ast.Tuple) and len(g.target.elts) == 2 \
+            and all(isinstance(e, ast.Name) for e in g.target.elts):
+        key_var, attr_var = g.target.elts[0].id, g.target.elts[1].id
+    elif it in (f'{elem}._members.values()', f'{elem}.values()') and isinstance(g.target, ast.Name):
+        attr_var = g.target.id
+    else:
+        _fail(f'attribute count: unrecognised comprehension `{ast.unparse(node)}`', where)
+    if node.func.id == 'sum' and not g.ifs and isinstance(comp, ast.GeneratorExp):
+        return _key_filter(comp.elt, key_var, attr_var, where, want_equal=False)      # sum(k != 'c' for ...)
+    if node.func.id == 'sum' and not (isinstance(comp.elt, ast.Constant) and comp.elt.value == 1 and not isinstance(comp.elt.value, bool)):
+        _fail(f'attribute count: unrecognised comprehension `{ast.unparse(node)}`', where)
+    if not g.ifs:
+        return ('FNothing', None)
+    if len(g.ifs) != 1:
+        _fail(f'attribute count: unrecognised comprehension `{ast.unparse(node)}`', where)
+    return _key_filter(g.ifs[0], key_var, attr_var, where, want_equal=False)
+
+
+def _lin(node: ast.AST, env: dict, elem: str, where) -> _Lin:
+    if isinstance(node, ast.Constant) and isinstance(node.value, int) and not isinstance(node.value, bool):
+        return _Lin(const=node.value)
+    if isinstance(node, ast.Name) and node.id in env:
+        return env[node.id]
+    if isinstance(node, ast.Call) and isinstance(node.func, ast.Name) and node.func.id == 'len' and len(node.args) == 1 \
+            and not node.keywords and _members_expr(node.args[0], elem):
+        return _Lin(ln=1)
+    if isinstance(node, ast.Call) and ast.unparse(node.func) in (f'{elem}.__len__', f'{elem}._members.__len__') and not node.args and not node.keywords:
+        return _Lin(ln=1)
+    if isinstance(node, ast.Call) and isinstance(node.func, ast.Name) and node.func.id in ('int', 'bool') and len(node.args) == 1 and not node.keywords:
+        h = _has_test(node.args[0], elem, where)
+        if h is not None:
+            return _Lin(has=1, has_key=h[0]) if not h[1] else _Lin(has=-1, const=1, has_key=h[0])
+    h = _has_test(node, elem, where)
+    if h is not None:
+        return _Lin(has=1, has_key=h[0]) if not h[1] else _Lin(has=-1, const=1, has_key=h[0])
+    kf = _count_comprehension(node, elem, where)
+    if kf is not None:
+        return _Lin(ln=1) if kf[0] == 'FNothing' else _Lin(kept=1, kept_filter=kf)
+    if isinstance(node, ast.BinOp) and isinstance(node.op, (ast.Add, ast.Sub)):
+        return _lin(node.left, env, elem, where).add(_lin(node.right, env, elem, where), 1 if isinstance(node.op, ast.Add) else -1, where)
+    if isinstance(node, ast.BinOp) and isinstance(node.op, ast.Mult):
+        a, b = _lin(node.left, env, elem, where), _lin(node.right, env, elem, where)
+        if a.is_const():
+            return b.scale(a.const)
+        if b.is_const():
+            return a.scale(b.const)
+    if isinstance(node, ast.UnaryOp) and isinstance(node.op, ast.USub):
+        return _lin(node.operand, env, elem, where).scale(-1)
+    if isinstance(node, ast.IfExp):
+        h = _has_test(node.test, elem, where)
+        if h is not None:
+            return _lin_select(h, _lin(node.body, env, elem, where), _lin(node.orelse, env, elem, where), where)
+    _fail(f'attribute count: unrecognised expression `{ast.unparse(node)}`', where)
+
+
+def _lin_select(h, then: _Lin, other: _Lin, where) -> _Lin:
+    """The value `then` when the key is present, `other` when it is not, as one linear form (the indicator is 0 / 1)."""
+    key, neg = h
+    if neg:
+        then, other = other, then
+    for f in (then, other):
+        if f.has_key is not None and f.has_key != key:
+            _fail('attribute count: membership tests on two different keys', where)
+    if then.ln != other.ln or then.kept != other.kept:
+        _fail('attribute count: the branches differ by more than a constant', where)
+    _, kf = then._merge_keys(_Lin(kept_filter=other.kept_filter), where)
+    # then at has = 1, other at has = 0
+    return _Lin(other.ln, (then.const + then.has) - other.const, other.const, other.kept, key, kf)
+
+
+def _member_loop(loop: ast.For, elem: str, where):
+    """A `for` over the members of `elem`: (key variable, attribute variable, skip filter, statements of the kept part)."""
+    it = ast.unparse(loop.iter)
+    key_var = attr_var = None
+    if it in (f'{elem}._members.items()', f'{elem}.items()') and isinstance(loop.target, ast.Tuple) and len(loop.target.elts) == 2 \
+            and all(isinstance(e, ast.Name) for e in loop.target.elts):
+        key_var, attr_var = loop.target.elts[0].id, loop.target.elts[1].id
+    elif it in (f'{elem}._members.values()', f'{elem}.values()') and isinstance(loop.target, ast.Name):
+        attr_var = loop.target.id
+    else:
+        _fail(f'export_binary: unrecognised loop over the members `for {ast.unparse(loop.target)} in {it}`', loop)
+    body = _strip_doc(loop.body)
+    mentions = lambda n: any(isinstance(x, ast.Constant) and isinstance(x.value, str) for x in ast.walk(n))
+    first = body[0] if body else None
+    if isinstance(first, ast.If) and not first.orelse and len(first.body) >= 1 and isinstance(first.body[-1], ast.Continue) \
+            and all(isinstance(x, (ast.Continue, ast.Pass)) or (isinstance(x, ast.Expr) and isinstance(x.value, ast.Constant)) for x in first.body) \
+            and isinstance(first.test, ast.Compare) and mentions(first.test) \
+            and ast.unparse(first.test.left if not isinstance(first.test.left, ast.Constant) else first.test.comparators[0]) in (key_var, f'{attr_var}.name'):
+        return key_var, attr_var, _key_filter(first.test, key_var, attr_var, first), body[1:]
+    if len(body) == 1 and isinstance(first, ast.If) and not first.orelse and isinstance(first.test, ast.Compare) and mentions(first.test) \
+            and ast.unparse(first.test.left if not isinstance(first.test.left, ast.Constant) else first.test.comparators[0]) in (key_var, f'{attr_var}.name'):
+        return key_var, attr_var, _key_filter(first.test, key_var, attr_var, first, want_equal=False), first.body
+    return key_var, attr_var, ('FNothing', None), body
+
+
+def _attr_count(fn: ast.FunctionDef) -> dict:
+    """export_binary: the count written in front of an element's attribute records, and which members the collecting
+    loop and the record-writing loop skip."""
+    loops = [n for n in fn.body if isinstance(n, ast.For) and ast.unparse(n.iter) == 'elements' and isinstance(n.target, ast.Name)]
+    collect = [l for l in loops if any(isinstance(x, ast.Call) and ast.unparse(x.func) == 'elements.append' for x in ast.walk(l))]
+    def inner_loops(l):
+        return [x for x in l.body if isinstance(x, ast.For) and '_members' in ast.unparse(x.iter) or
+                (isinstance(x, ast.For) and ast.unparse(x.iter) in (f'{l.target.id}.values()', f'{l.target.id}.items()'))]
+    write = [l for l in loops if l not in collect and inner_loops(l)]
+    if len(collect) != 1 or len(write) != 1:
+        _fail(f'export_binary: expected one collecting and one attribute-writing loop over `elements`, found {len(collect)} / {len(write)}')
+    out: dict = {}
+    c, w = collect[0], write[0]
+    ci = inner_loops(c)
+    if len(ci) != 1:
+        _fail('export_binary: the collecting loop has no single loop over the members', c)
+    out['collect_filter'] = _member_loop(ci[0], c.target.id, c)[2]
+    wi = inner_loops(w)
+    if len(wi) != 1:
+        _fail('export_binary: the attribute-writing loop has no single loop over the members', w)
+    out['write_filter'] = _member_loop(wi[0], w.target.id, w)[2]
+    out['line'] = w.lineno
+    # straight-line code in front of the member loop: the count
+    elem = w.target.id
+    env: dict = {}
+    count = None
+    for st in w.body:
+        if st is wi[0]:
+            break
+        if isinstance(st, ast.Assign) and len(st.targets) == 1 and isinstance(st.targets[0], ast.Name):
+            env[st.targets[0].id] = _lin(st.value, env, elem, st)
+        elif isinstance(st, ast.AnnAssign) and isinstance(st.target, ast.Name) and st.value is not None:
+            env[st.target.id] = _lin(st.value, env, elem, st)
+        elif isinstance(st, ast.AugAssign) and isinstance(st.target, ast.Name) and st.target.id in env and isinstance(st.op, (ast.Add, ast.Sub)):
+            env[st.target.id] = env[st.target.id].add(_lin(st.value, env, elem, st), 1 if isinstance(st.op, ast.Add) else -1, st)
+        elif isinstance(st, ast.If) and _has_test(st.test, elem, st) is not None:
+            h = _has_test(st.test, elem, st)
+            envs = []
+            for branch in (st.body, st.orelse):
+                e2 = dict(env)
+                for b in branch:
+                    if isinstance(b, ast.AugAssign) and isinstance(b.target, ast.Name) and b.target.id in e2 and isinstance(b.op, (ast.Add, ast.Sub)):
+                        e2[b.target.id] = e2[b.target.id].add(_lin(b.value, e2, elem, b), 1 if isinstance(b.op, ast.Add) else -1, b)
+                    elif isinstance(b, ast.Assign) and len(b.targets) == 1 and isinstance(b.targets[0], ast.Name):
+                        e2[b.targets[0].id] = _lin(b.value, e2, elem, b)
+                    elif isinstance(b, ast.Pass):
+                        pass
+                    else:
+                        _fail(f'export_binary: unrecognised statement in the attribute count `{ast.unparse(b)}`', b)
+                envs.append(e2)
+            for k in set(envs[0]) | set(envs[1]):
+                if k not in envs[0] or k not in envs[1]:
+                    _fail(f'export_binary: `{k}` is assigned in one branch only', st)
+                env[k] = _lin_select(h, envs[0][k], envs[1][k], st)
+        elif isinstance(st, ast.Expr) and isinstance(st.value, ast.Call) and ast.unparse(st.value.func) == 'file.write':
+            a = st.value.args
+            if not (len(a) == 1 and isinstance(a[0], ast.Call) and ast.unparse(a[0].func) in ('pack', 'struct.pack') and len(a[0].args) == 2
+                    and isinstance(a[0].args[0], ast.Constant) and a[0].args[0].value == '<i' and count is None):
+                _fail(f'export_binary: unrecognised write in front of the attribute records `{ast.unparse(st)}`', st)
+            count = _lin(a[0].args[1], env, elem, st)
+        elif isinstance(st, ast.Expr) and isinstance(st.value, ast.Constant):
+            continue
+        else:
+            _fail(f'export_binary: unrecognised statement in front of the attribute records `{ast.unparse(st)}`', st)
+    if count is None:
+        _fail('export_binary: no attribute count is written in front of the attribute records', w)
+    if any(isinstance(x, ast.Call) and ast.unparse(x.func) == 'file.write' for st in w.body[w.body.index(wi[0]) + 1:] for x in ast.walk(st)):
+        _fail('export_binary: writes after the loop over the members', w)
+    out['count'] = count
+    return out
+
+
+def _name_getter(tree: ast.Module) -> dict:
+    """Element.name (the property getter): which member it reads and what it returns when the member is missing;
+    Element.__len__."""
+    getter = None
+    for n in tree.body:
+        if isinstance(n, ast.ClassDef) and n.name == 'Element':
+            for f in n.body:
+                if isinstance(f, ast.FunctionDef) and f.name == 'name' and any(ast.unparse(d) == 'property' for d in f.decorator_list):
+                    getter = f
+    if getter is None:
+        _fail('Element.name property not found')
+    keys = set()
+    for n in ast.walk(getter):
+        if isinstance(n, ast.Subscript) and ast.unparse(n.value) == 'self._members':
+            if not (isinstance(n.slice, ast.Constant) and isinstance(n.slice.value, str)):
+                _fail('Element.name: unrecognised member lookup', n)
+            keys.add(n.slice.value)
+        if isinstance(n, ast.Call) and ast.unparse(n.func) == 'self._members.get':
+            if not (n.args and isinstance(n.args[0], ast.Constant) and isinstance(n.args[0].value, str)):
+                _fail('Element.name: unrecognised member lookup', n)
+            keys.add(n.args[0].value)
+        if isinstance(n, ast.Compare) and any(ast.unparse(c_) == 'self._members' for c_ in n.comparators) and isinstance(n.left, ast.Constant):
+            keys.add(n.left.value)
+    rets = [n.value for n in ast.walk(getter) if isinstance(n, ast.Return)]
+    consts = [r.value for r in rets if isinstance(r, ast.Constant) and isinstance(r.value, str)]
+    others = [r for r in rets if not (isinstance(r, ast.Constant) and isinstance(r.value, str))]
+    if len(keys) != 1 or len(consts) != 1 or len(others) != 1 or not (isinstance(others[0], ast.Attribute) and others[0].attr in ('val_string', 'val_str')):
+        _fail(f'Element.name: unrecognised getter (member keys {sorted(keys)}, {len(rets)} returns)', getter)
+    ln = [ast.unparse(x) for x in _strip_doc(_raw_func(tree, 'Element', '__len__').body)]
+    return {'key': keys.pop(), 'default': consts[0], 'len_is_members': ln == ['return len(self._members)']}
 
 
 # ------------------------------------------------------------------------------------------------ scalar codecs
@@ -956,6 +1345,8 @@ def translate() -> tuple[str, dict]:
     kv2_kw_roots, kv2_kw_roots_line = _kv2_keyword_roots(tree, _func(tree, 'Element', 'export_kv2'))
     kv2_stub, kv2_stub_line = _kv2_stubs([_func(tree, 'Element', 'parse_kv2'), _func(tree, 'Element', '_parse_kv2_element')])
     kv1 = _kv1(tree)
+    cnt = _attr_count(_func(tree, 'Element', 'export_binary'))
+    ngt = _name_getter(tree)
     # scalar codecs
     _binconv_shapes(tree)
     tcodec = _time_codec(tree)
@@ -984,8 +1375,16 @@ def translate() -> tuple[str, dict]:
                 enc_read_lines={k: v[1] for k, v in pb['enc_read'].items()},
                 formats=fmt_rows, time_codec=tcodec, matrix_codec=mcodec, ctor=ctor_rows,
                 value_text=vtext, header=hdr, kv2_fields=kv2, kv2_ref_tables=kv2_refs, kv2_tokenizer_kwargs=kv2_tok_kw, kv2_keyword_types_at_root=kv2_kw_roots, kv2_keyword_roots_line=kv2_kw_roots_line, kv2_stub_keeps_uuid=kv2_stub, kv2_stub_line=kv2_stub_line, kv1=kv1,
+                attr_count={'len': cnt['count'].ln, 'has': cnt['count'].has, 'has_key': cnt['count'].has_key, 'const': cnt['count'].const,
+                            'kept': cnt['count'].kept, 'kept_filter': cnt['count'].kept_filter, 'write_filter': cnt['write_filter'],
+                            'collect_filter': cnt['collect_filter'], 'line': cnt['line'], 'name_getter': ngt},
                 digests={f: ast_digest(_func(tree, 'Element', f)) for f in
                          ('parse_bin', 'export_binary', 'export_kv2', '_export_kv2', 'parse_kv2', '_parse_kv2_element')})
+
+    def mfilter(f):
+        if f is None or f[0] == 'FNothing':
+            return 'FNothing'
+        return f'({f[0]} {_coq_str(f[1])})'
 
     def encfun(d):
         return 'fun s => match s with ' + ' | '.join(f'{s} => {d[s][0]}' for s in SITES) + ' end'
@@ -993,7 +1392,7 @@ def translate() -> tuple[str, dict]:
     umfun = lambda d: ('fun m => match m with UAscii => ' + b(d['ascii']) + ' | UFormat => ' + b(d['format']) + ' | USilent => ' + b(d['silent']) + ' end')
     lines = [
         '(* GENERATED by translate/c14_dmx.py from /repo/src/srctools/dmx.py. Do not edit. *)',
-        'From Coq Require Import NArith ZArith List String.', 'From SV Require Import Num.Dec6 Fmt.DmxCodes Fmt.DmxKv1 Fmt.DmxScalar Fmt.DmxKv2 Fmt.DmxValText Fmt.DmxHeader.', 'Import ListNotations.',
+        'From Coq Require Import NArith ZArith List String.', 'From SV Require Import Num.Dec6 Fmt.DmxCodes Fmt.DmxBin Fmt.DmxMembers Fmt.DmxKv1 Fmt.DmxScalar Fmt.DmxKv2 Fmt.DmxValText Fmt.DmxHeader.', 'Import ListNotations.',
         'Open Scope N_scope.',
         'Definition gen_cfg : dmxcfg := {|',
         '  code_table := [' + '; '.join(f'({c}, {i})' for c, i, _ in table) + '];',
@@ -1055,6 +1454,13 @@ def translate() -> tuple[str, dict]:
         'Definition gen_kv2_tok_kwargs : list (string * bool) := [' + '; '.join(f'("{k}"%string, {b(v)})' for k, v in kv2_tok_kw) + '].',
         '(* the values of the ValueType enum (attribute type keywords of KeyValues2) *)',
         'Definition gen_vtnames : list (list N) := [' + '; '.join(_coq_str(k) for k in VT) + '].',
+        '(* export_binary: the attribute count written per element, the skip tests of the two loops over the members, Element.name *)',
+        'Definition gen_cnt : cntcfg := {|',
+        f'  cc_len := ({cnt["count"].ln})%Z; cc_has := ({cnt["count"].has})%Z; cc_has_key := {_coq_str(cnt["count"].has_key or "")};',
+        f'  cc_const := ({cnt["count"].const})%Z; cc_kept := ({cnt["count"].kept})%Z; cc_kept_filter := {mfilter(cnt["count"].kept_filter)};',
+        f'  cc_write_filter := {mfilter(cnt["write_filter"])}; cc_collect_filter := {mfilter(cnt["collect_filter"])};',
+        f'  cc_name_key := {_coq_str(ngt["key"])}; cc_name_default := {_coq_str(ngt["default"])}; cc_len_is_members := {b(ngt["len_is_members"])};',
+        '|}.',
         '(* KeyValues1 bridge constants *)',
         'Definition gen_kv1 : kv1cfg := {|',
         f'  t_block := {_coq_str(kv1["t_block"])};',
